@@ -16,3 +16,14 @@ PROPS = {
         stub=['kernel thread scheduling (seeded scheduler)', 'monotonic clock (virtual)'],
     ),
 }
+
+NOT_APPLICABLE = {
+    'C07': 'pure single-threaded data structure (byte buffer): outcome is a function of the call sequence; no schedule, clock, I/O or fault for a simulator to decide (DESIGN.md §8)',
+    'C08': 'passive containers/handles (cabinet, object pool, Fd): single-threaded call histories, no source of nondeterminism or fault seam (DESIGN.md §8)',
+    'C16': 'hierarchical state machine is synchronous, single-threaded and time-free: the trace is a pure function of (definition, event sequence) (DESIGN.md §8)',
+    'C19': 'codecs, checksums, MD5, AES are pure functions of their input; input generation is not simulation (DESIGN.md §8)',
+}
+
+# planned in DESIGN.md §7 but whose harness is not built yet — not claimed until it is
+PENDING = {p: 'harness not built yet (planned in DESIGN.md §7); not claimed until the check exists' for p in
+           ['C01', 'C02', 'C03', 'C04', 'C06', 'C09', 'C10', 'C11', 'C12', 'C13', 'C14', 'C15', 'C17', 'C18', 'C20']}
